@@ -189,7 +189,7 @@ struct Gen {
     if (t.empty()) return t;
     switch (r.below(6)) {
       case 0: t.resize(r.below(t.size() + 1)); break;                     // truncate at a prefix
-      case 1: t[r.below(t.size())] = (char)r.below(256); break;           // single byte mutation
+      case 1: t[r.below(t.size())] = r.chance(1, 8) ? '\0' : (char)r.below(256); break;           // single byte mutation (a stray NUL now and then)
       case 2: { static const char sp[] = "[]{}\",:\\"; t[r.below(t.size())] = sp[r.below(sizeof(sp) - 1)]; break; }
       case 3: t.erase(r.below(t.size()), 1); break;
       case 4: { static const char sp[] = "[]{}\",:\\0-e."; t.insert(r.below(t.size() + 1), 1, sp[r.below(sizeof(sp) - 1)]); break; }
@@ -464,6 +464,33 @@ static void gen_c19(uint64_t seed, uint64_t run, const std::string& tier, Plan& 
   p.knobs["flavours"] = g.r.chance(1, 2) ? 7 : (int64_t)(1 + g.r.below(7));
   model::GenOpts go2 = g.go; go2.max_depth = (int)g.r.range(1, 4);
   size_t docs = (size_t)g.r.range(1, 3);
+  if (g.r.chance(1, 40)) {   // wide: an object of 60..300 declared members, the text supplies (almost) all of them, in declaration order or shuffled
+    int64_t sl = g.slot();
+    size_t n = (size_t)(g.r.chance(1, 2) ? g.r.range(60, 70) : g.r.range(100, 300));
+    JVal e = JVal::obj(), t = JVal::obj();
+    for (size_t i = 0; i < n; i++) { std::string k = "m" + std::to_string(i); e.o.emplace_back(k, JVal::uint(0)); if (!g.r.chance(1, 40)) t.o.emplace_back(k, JVal::uint(i + 1)); }
+    if (g.r.chance(1, 3)) for (size_t i = t.o.size(); i > 1; i--) std::swap(t.o[i - 1], t.o[g.r.below(i)]);
+    if (g.r.chance(1, 3)) t.o.insert(t.o.begin() + (long)g.r.below(t.o.size() + 1), {"undeclared", JVal::str("x")});
+    { Op& op = g.add("Build"); op.a.push_back(sl); op.s.push_back(""); op.a.push_back((int64_t)g.r.below(3)); op.s.push_back(model::canon(e)); }
+    if (g.r.chance(1, 3)) { Op& op = g.add("CreateMap"); op.a.push_back(sl); op.s.push_back(""); }
+    { Op& op = g.add("ParseSchema"); op.a.push_back(sl); op.s.push_back(""); op.s.push_back(model::write(t)); }
+    docs = 0;
+  }
+  else if (g.r.chance(1, 300)) {   // deep: the same chain of 200..700 nested non-empty objects on both sides, declared keys AFTER the deep member at outer levels
+    int64_t sl = g.slot();
+    size_t depth = (size_t)g.r.range(200, 700), every = (size_t)g.r.range(1, 60);
+    JVal e = JVal::obj(), t = JVal::obj();
+    e.o.emplace_back("x", JVal::uint(1)); t.o.emplace_back("x", JVal::uint(2));
+    for (size_t lv = 0; lv < depth; lv++) {
+      JVal ne = JVal::obj(), nt = JVal::obj();
+      ne.o.emplace_back("a", std::move(e)); nt.o.emplace_back("a", std::move(t));
+      if (lv % every == 0) { ne.o.emplace_back("z", JVal::uint(0)); nt.o.emplace_back("z", JVal::uint(lv + 1)); }
+      e = std::move(ne); t = std::move(nt);
+    }
+    { Op& op = g.add("Parse"); op.a.push_back(sl); op.s.push_back(""); op.s.push_back(model::write(e)); }
+    { Op& op = g.add("ParseSchema"); op.a.push_back(sl); op.s.push_back(""); op.s.push_back(model::write(t)); }
+    docs = 0;
+  }
   for (size_t d = 0; d < docs; d++) {
     int64_t sl = g.slot();
     JVal e = model::gen_value(g.r, go2);
